@@ -11,7 +11,7 @@ META = {
     "C01": dict(engine="E2-opseq", tech="explicit-state differential exploration of twin runs: every single deviation (fresh twin, n_jobs 2/4 with real loky, verbose, saving folder, sampler-constructor seeds) on a complete lattice of line-ups x schedulers x losses x dims x ensemble, bit-exact state comparison; plus an other-process deviation (another hash salt) and two large-scope configurations (600-row surrogate history, likelihood loss on series of 4100 points)",
                 text="Bounded-exhaustive differential model checking on the real Calibrator: for every configuration of a finite lattice the baseline run and every single deviation from it are executed and their canonical histories compared bit for bit. Level is right because the property is a statement over configurations, and the realistic slips (seed drawn in a worker, cursor not reset on reseed, shared streams) have witnesses of <=3 samplers and <=2x line-up length batches.",
                 note="Trusted: numpy Generator determinism, joblib/loky returning results in submission order; completion order of worker processes is not enumerated. Line-ups longer than the bound and dims > 4 are not covered."),
-    "C02": dict(engine="E2-opseq", tech="explicit-state search over calibrate(n) call sequences on the real Calibrator with logged sampler/model/loss calls; eight history invariants evaluated after every transition",
+    "C02": dict(engine="E2-opseq", tech="explicit-state search over calibrate(n) call sequences on the real Calibrator with logged sampler/model/loss calls; eight history invariants evaluated after every transition (models with extreme/non-finite output, built-in losses and a user-defined negated score whose values lie below the float32 range)",
                 text="Breadth-first exploration of all sequences of calibrate(1|2) up to a depth bound for a lattice of line-ups x models (incl. huge/inf values) x ensemble x sim_length; after each transition the recorded history is checked against the logs of what samplers proposed, what the model was called with and returned, and what the loss returned, plus append-only snapshots.",
                 note="Trusted: class-level logging patches (BaseSampler.sample, BaseLoss.compute_loss, scheduler methods) are transparent; n_jobs=1 so call order is owned."),
     "C03": dict(engine="E4-enum", tech="bounded-exhaustive enumeration: search-space lattice x all nine samplers x option settings x history patterns x seeds, three successive sample() calls each; exact grid membership oracle; continued on a second space of the same dimension (one sampler object), integer-typed on-grid histories",
